@@ -34,6 +34,11 @@ var importMap = map[string]string{
 	"math/rand":   shimBase + "vrand",
 }
 
+// per-package overrides of the import map
+var importOverride = map[string]map[string]string{
+	"pkg/f1/testing": {"sync/atomic": shimBase + "vatomict"},
+}
+
 const vrtName = "__vrt"
 
 func fail(format string, a ...any) {
@@ -46,6 +51,7 @@ type rw struct {
 	n       int
 	usedVrt bool
 	file    string
+	pkg     string
 }
 
 func (r *rw) tmp(prefix string) *ast.Ident {
@@ -360,7 +366,11 @@ func (r *rw) file_(path string, src []byte) ([]byte, bool) {
 	changed := false
 	for _, imp := range f.Imports {
 		p, _ := strconv.Unquote(imp.Path.Value)
-		if np, ok := importMap[p]; ok {
+		np, ok := importMap[p]
+		if o, has := importOverride[r.pkg][p]; has {
+			np, ok = o, true
+		}
+		if ok {
 			if imp.Name == nil {
 				imp.Name = ast.NewIdent(filepath.Base(p))
 			}
@@ -415,7 +425,7 @@ func main() {
 			if err != nil {
 				fail("%v", err)
 			}
-			r := &rw{fset: token.NewFileSet(), file: path}
+			r := &rw{fset: token.NewFileSet(), file: path, pkg: pkg}
 			res, changed := r.file_(path, src)
 			if !changed {
 				continue
